@@ -891,11 +891,18 @@ func (d *dealerPart) onCallMsg(w *World, st *StepRec, s int, realm string, rc *R
 	// A refused disclose_me (realm forbids, registration does not disclose).
 	refusable := discloseMe && !rc.AllowDisclose
 	if refusable {
+		// A registration that discloses callers itself needs no permission for this call.
+		// With several matching wildcard registrations the router's choice decides: the
+		// call is refusable only if it went (or, when nothing was routed, could have
+		// gone) to a registration that does not disclose.
 		allReg := true
 		for _, a := range allowed {
 			if !a.r.disclose {
 				allReg = false
 			}
+		}
+		if chosen != nil {
+			allReg = chosen.r.disclose
 		}
 		if !allReg {
 			isRefusal := func(x wamp.Message) bool { return isCallError(x, req, wamp.ErrOptionDisallowedDiscloseMe) }
